@@ -32,30 +32,38 @@ package jschema
 // type graph): only the ownership of the returned slice is stated.
 
 //@ func (*exampleBuilder).Build(node)
-//@   props C11
-//@   trusted "recursive example assembly: arbitrary effect (nothing assumed)"
+//@   props C11 C15
+//@   trusted "recursive example assembly: arbitrary effect; ASSUMED only that an example that is present is non-empty and does not end with a comma (a JSON value never does), and the pool protocol (a checked-out buffer is touched by its owner alone)"
 //@   maypanic
 //@   modifies *
+//@   defines normal && result0 != nil ==> len(result0) > 0 && result0[len(result0) - 1] != ','
+//@   defines forall q *stdBytes.Buffer :: !old(q.pooled) ==> !q.pooled && q.n == old(q.n) && q.last == old(q.last) && q.prev == old(q.prev)
 //@ func (*exampleBuilder).buildObjectKey(k)
-//@   props C11
-//@   trusted "key example: arbitrary effect (nothing assumed)"
+//@   props C11 C15
+//@   trusted "key example: arbitrary effect; ASSUMED only the pool protocol (a checked-out buffer is touched by its owner alone)"
 //@   maypanic
 //@   modifies *
+//@   defines forall q *stdBytes.Buffer :: !old(q.pooled) ==> !q.pooled && q.n == old(q.n) && q.last == old(q.last) && q.prev == old(q.prev)
 
+// C15: "separators decided by what was emitted": the text of an object / array
+// example starts with its bracket, ends with the matching bracket, and the byte
+// before the closing bracket is never a comma
 //@ func (*exampleBuilder).buildExampleForObjectNode(node)
-//@   props C11
+//@   props C11 C15
 //@   requires b != nil && node != nil
 //@   assumes consReady(box(node))
 //@   maypanic
 //@   modifies *
 //@   ensures normal && result1 == nil ==> len(result0) == 0 || result0.$arr > old(alloc)
-//@   loop 0 invariant rangeindex >= 0 - 1
+//@   ensures normal && result1 == nil ==> len(result0) >= 2 && result0[len(result0) - 1] == '}' && result0[len(result0) - 2] != ','
+//@   loop 0 invariant buf.n >= 1 && buf.last != ',' && !buf.pooled
 
 //@ func (*exampleBuilder).buildExampleForArrayNode(node)
-//@   props C11
+//@   props C11 C15
 //@   requires b != nil && node != nil
 //@   assumes consReady(box(node))
 //@   maypanic
 //@   modifies *
 //@   ensures normal && result1 == nil ==> len(result0) == 0 || result0.$arr > old(alloc)
-//@   loop 0 invariant rangeindex >= 0 - 1
+//@   ensures normal && result1 == nil ==> len(result0) >= 2 && result0[len(result0) - 1] == ']' && result0[len(result0) - 2] != ','
+//@   loop 0 invariant buf.n >= 1 && buf.last != ',' && !buf.pooled
